@@ -12,7 +12,7 @@ R4  theory conflicts become clauses over their own literals: theory::analyze_and
 from ..expr import LocalEnv, canon, show
 from ..facts import AnalysisBroken, short, src, walk
 from ..schema import posted, show_clause
-from ..tables import VecBuilder, arm_of, enum_paths, fmt_items
+from ..tables import VecBuilder, arm_of, enum_paths, fmt_items, path_literals, value_of, eq_test
 from .. import cfg
 from .C01 import MUST_CHECK
 
@@ -241,14 +241,32 @@ def r3(ctx, fs, cfgname):
                 ctx.finding(rid, f.id, 'unchecked ' + show_clause(c), '%s ignores the failure of %s' % (f.name, show_clause(c)), node=n)
     f = fs.fn('ratio::graph::check')
     env = LocalEnv(f, fs)
-    sw = [n for n in f.nodes() if n.get('k') == 'SwitchStmt']
-    ok = False
-    if len(sw) == 1 and canon(sw[0]['slots']['cond'], env, subst=False)[-1] == 'ratio::graph::gamma':
-        inits = [n for n in f.nodes() if n.get('callee_name') == 'ratio::graph::init']
-        decs = [n for n in f.nodes() if n.get('callee_name') == 'ratio::solver::take_decision']
-        okc = len(inits) == 1 and [l[2] for l in (arm_of(sw[0], inits[0]) or ()) if l[0] == 'case'] == ['False']
-        okd = len(decs) == 1 and canon(decs[0], env, subst=False)[-1] == ('lit', 'ratio::graph::gamma')
-        ok = okc and okd
+    # decided on the paths of the function, whatever spells the three-way test on the value of gamma (switch with fall-through, if chain, early return):
+    # gamma False -> init() (fresh gamma), then the decision; Undefined -> the decision only; True -> neither
+    cn = lambda n: canon(n, env, subst=False)
+    is_val = lambda t: isinstance(t, tuple) and t[0] == 'mcall' and str(t[1]).endswith('::value') and t[-1] == 'ratio::graph::gamma'
+    ok = True
+    seen = set()
+    for p in enum_paths(f.body):
+        L = path_literals(p, cn)
+        if L is None:
+            continue
+        es = {ek[0] for c in L if c[0] == 'if' for ek in [eq_test(c[1])] if ek is not None and is_val(ek[0])}
+        v = value_of(L, next(iter(es))) if len(es) == 1 else None
+        calls = [(m.get('callee_name'), m) for st in p.stmts if not st.get('as') for m in walk(st) if m.get('callee_name') in ('ratio::graph::init', 'ratio::solver::take_decision')]
+        names = [c[0] for c in calls]
+        decided = [cn(m)[-1] for nm, m in calls if nm == 'ratio::solver::take_decision']
+        seen.add(v)
+        if v == 'False':
+            good = names == ['ratio::graph::init', 'ratio::solver::take_decision'] and decided == [('lit', 'ratio::graph::gamma')]
+        elif v == 'Undefined':
+            good = names == ['ratio::solver::take_decision'] and decided == [('lit', 'ratio::graph::gamma')]
+        elif v == 'True':
+            good = not names
+        else:
+            good = False
+        ok = ok and good
+    ok = ok and {'False', 'Undefined'} <= seen
     ctx.instance(rid, [f.id, 'gamma'], {'fresh_gamma_only_when_false_and_decided': ok})
     if not ok:
         ctx.finding(rid, f.id, 'gamma', 'graph::check must create a fresh gamma only when the current one is false and then take gamma as a decision', loc=f.loc)
